@@ -384,7 +384,10 @@ def line_scenarios(ctx, lines_of):
         else:
             # the handshake is ~2000 lines; sample it thinly and the loop densely
             tail = list(range(max(0, total - 700), total))
-            ks = sorted(set(rnd.sample(range(total), min(total, 150)) + rnd.sample(tail, min(len(tail), 350 if bi == 0 else 150))))
+            # … and the END of the run (the last event's read, teardown, the closing handshake, the return) completely: one
+            # particular line of teardown is where a second thread's close() hurts
+            ending = list(range(max(0, total - 260), total))
+            ks = sorted(set(rnd.sample(range(total), min(total, 150)) + rnd.sample(tail, min(len(tail), 350 if bi == 0 else 150)) + ending))
         for k in ks:
             sc = dict(b)
             sc.update(cbs=appsim.ALL, closer_line=k, horizon=40 * TPS, tag=f"line@{k}|base{bi}", kind="closer-line")
